@@ -480,7 +480,9 @@ def whole_binary_determinism(ck):
         return
     # ion_multi: 7 discrete sources + an external field, 5003 packets: the packets lost to rounding in the split over the sources are
     # handed out by a random draw (DistributedPhotonSource), which must be reproducible too
-    cfgs = [("ion.param", ["--task-based"]), ("ion_multi.param", ["--task-based"]), ("rhd.param", ["--task-based-rhd", "--number-of-steps", "2"])]
+    # ion_legacy: the default (not task-based) photoionization mode, which seeds its generators in IonizationSimulation /
+    # IonizationPhotonShootJobMarket rather than in the task-based driver
+    cfgs = [("ion.param", ["--task-based"]), ("ion_multi.param", ["--task-based"]), ("rhd.param", ["--task-based-rhd", "--number-of-steps", "2"]), ("ion_legacy.param", [])]
     if not ck.quick:
         cfgs.append(("o7.param", ["--task-based"]))
     ncomp = 0
@@ -520,8 +522,12 @@ def whole_binary_determinism(ck):
             continue
         by_seed = {}
         # pairs of seeds that differ in a low bit and in high bits (a seed must reach the generators in full: 31 bits)
-        pairs = [(1, 2)] + ([(42, 42 + (1 << 27)), (42 + (1 << 20), 42), ((1 << 31) - 1, (1 << 27) - 1)] if cfg == "ion.param" else [])
-        for seed in sorted(set(x for pr in pairs for x in pr)):
+        pairs = [(1, 2)] + ([(42, 42 + (1 << 27)), (42 + (1 << 20), 42), ((1 << 31) - 1, (1 << 27) - 1)] if cfg in ("ion.param", "ion_legacy.param") else [])
+        # seed 0 is the seed 1 (statement: "seed 0 maps to 1"): same snapshots, and different from every other seed
+        same = [(0, 1)] if cfg in ("ion.param", "ion_legacy.param") else []
+        if same:
+            pairs.append((0, 42))
+        for seed in sorted(set(x for pr in pairs + same for x in pr)):
             w = os.path.join(d, "wbs_%s_%d" % (cfg, seed))
             shutil.rmtree(w, ignore_errors=True)
             os.makedirs(w)
@@ -546,6 +552,10 @@ def whole_binary_determinism(ck):
                              "generators in full, so the run does not use the RANLUX stream of its seed" % (cfg, sa, sb, sum(len(v) for v in by_seed[sa][1].values())),
                              {"config": cfg, "seeds": [sa, sb]}, key={"kind": "seed_ignored", "config": cfg})
                 break
+        for (sa, sb) in same:
+            if by_seed[sa][1] != by_seed[sb][1]:
+                ck.violation("C13: one-thread runs of %s with 'random seed: %d' and 'random seed: %d' write different snapshots, but seed 0 is defined to give the stream of seed 1" % (cfg, sa, sb),
+                             {"config": cfg, "seeds": [sa, sb], "expect": "identical"}, key={"kind": "seed_zero_not_one", "config": cfg})
     ck.coverage["whole_binary_seed_pairs"] = nseed
     ck.coverage["whole_binary_objects_compared"] = ncomp
     ck.coverage["whole_binary_configs"] = [c for c, _ in cfgs]
